@@ -6,7 +6,8 @@
    by the witnesses below (findings, replayed on the real provisioning.Service by the harness). *)
 From Coq Require Import String.
 From Verif Require Import Base.CaseCheck Prov.Import Prov.Check Prov.ImportProofs Prov.ImportCells Prov.ImportExport
-  Prov.ImportBuild Prov.ImportKeys Prov.ImportThms Prov.ImportMonitor Prov.ImportRefuted Prov.Fields.
+  Prov.ImportBuild Prov.ImportKeys Prov.ImportThms Prov.ImportMonitor Prov.ImportRefuted Prov.Fields
+  Prov.Init Prov.InitProofs.
 
 (* converges: from any state an import can start from (no pipeline yet, or a pipeline whose
    export is a valid config), importing a valid config succeeds and the export is that config *)
@@ -132,4 +133,85 @@ Proof.
   - split; [right; exists w9_old; split; vm_compute; reflexivity|]. vm_compute. repeat split; reflexivity.
   - vm_compute. repeat split; reflexivity.
   - vm_compute. repeat split; reflexivity.
+Qed.
+
+(* ---------------------------------------------------------------- the directory path: Service.Init
+   (Prov/Init.v: duplicate / API filters, keep-list, provisioning loop over the single-pipeline
+   import model, deleteOldPipelines; a world maps a pipeline id to that pipeline's state) *)
+
+(* deleteOldPipelines is handed exactly the config-provisioned pipelines whose config vanished from
+   the directory: for every variant of the import code, every directory, every injected failure *)
+Theorem C15_init_sweeps_exactly_vanished : forall fl w dir id,
+  swept (keep_ids w dir) (fst (provision_all fl w (todo w dir))) id = vanished w dir id.
+Proof. exact swept_iff_vanished. Qed.
+Print Assumptions C15_init_sweeps_exactly_vanished.
+
+(* the world after Init, pipeline by pipeline: a vanished pipeline is what Delete leaves of it,
+   every other pipeline is what the provisioning loop left of it (never handed to Delete) *)
+Theorem C15_init_deletes_exactly_vanished : forall fl w dir id,
+  fst (init fl w dir) id =
+  if vanished w dir id then mkW (fst (fst (delete_pl fl (w_st (w id))))) true
+  else fst (provision_all fl w (todo w dir)) id.
+Proof. exact init_deletes_exactly_vanished. Qed.
+Print Assumptions C15_init_deletes_exactly_vanished.
+
+(* per-pipeline isolation: a pipeline that is neither listed nor vanished is untouched *)
+Theorem C15_init_leaves_others : forall fl w dir id, ~ In id (ids_of dir) -> vanished w dir id = false ->
+  fst (init fl w dir) id = w id.
+Proof. exact init_leaves_others. Qed.
+Print Assumptions C15_init_leaves_others.
+
+(* a listed pipeline whose import fails inside Init (rejected by validation, refused by a service
+   half way, or one store write fails) is - after rollback AND sweep - exactly what it was: same
+   export, every connector State, same provisioning tag *)
+Theorem C15_init_retains_failed : forall w dir e,
+  In e (todo w dir) ->
+  wf repaired (w_st (w (de_id e))) -> nodup_cfg (de_cfg e) ->
+  (valid (de_cfg e) = true \/ de_fault e = None) ->
+  snd (fst (provision1 repaired (w (de_id e)) e)) = false ->
+  let x := w (de_id e) in
+  let x' := fst (init repaired w dir) (de_id e) in
+  export repaired (w_st x') = export repaired (w_st x)
+  /\ (forall c k, find_conn c (old_conns (old_of (export repaired (w_st x)))) = Some k ->
+        conn_state (w_st x') c = conn_state (w_st x) c)
+  /\ (has_pl (w_st x) = true -> w_cfg x' = w_cfg x).
+Proof. exact init_retains_failed. Qed.
+Print Assumptions C15_init_retains_failed.
+
+(* a clean directory (valid configs, no id twice, none owned by the API, no store failure)
+   converges every listed pipeline to its config ... *)
+Theorem C15_init_converges_listed : forall w dir e, clean_dir w dir -> In e dir ->
+  let x' := fst (init repaired w dir) (de_id e) in
+  export repaired (w_st x') = EOk (de_cfg e) /\ w_cfg x' = true.
+Proof. exact init_converges_listed. Qed.
+Print Assumptions C15_init_converges_listed.
+
+(* ... and a restart with the same directory does nothing to them: no store write, same state.
+   (partial: the statement covers the listed pipelines; that a vanished pipeline stays deleted on
+   restart needs "Delete of an exported pipeline removes it", which is checked by the differential
+   and the monitor on the real code but not proved about [delete_pl]) *)
+Theorem C15_init_idempotent_listed_partial : forall w dir e, clean_dir w dir -> In e dir ->
+  let w1 := fst (init repaired w dir) in
+  fst (init repaired w1 dir) (de_id e) = w1 (de_id e)
+  /\ snd (provision1 repaired (w1 (de_id e)) e) = []
+  /\ snd (fst (provision1 repaired (w1 (de_id e)) e)) = true.
+Proof. exact init_idempotent_listed. Qed.
+Print Assumptions C15_init_idempotent_listed_partial.
+
+(* non-vacuity: two pipelines provisioned from a directory, a position stored for the first, then
+   its config is edited into one with an unknown processor plugin while the second config
+   vanishes: Init reports an error, the first pipeline exports what it exported with its position,
+   the second is gone *)
+Example C15_init_nonvacuous :
+  In (mkD 1 wi_a2 None false) (todo wi_w1 wi_dir2)
+  /\ wf repaired (w_st (wi_w1 1)) /\ snd (fst (provision1 repaired (wi_w1 1) (mkD 1 wi_a2 None false))) = false
+  /\ snd (init repaired wi_w1 wi_dir2) = true
+  /\ export repaired (w_st (fst (init repaired wi_w1 wi_dir2) 1)) = EOk wi_a1
+  /\ conn_state (w_st (fst (init repaired wi_w1 wi_dir2) 1)) 1 = Some 7
+  /\ vanished wi_w1 wi_dir2 2 = true
+  /\ export repaired (w_st (fst (init repaired wi_w1 wi_dir2) 2)) = ENone.
+Proof.
+  split; [vm_compute; left; reflexivity|].
+  split; [right; exists wi_a1; split; vm_compute; reflexivity|].
+  vm_compute. repeat split; reflexivity.
 Qed.
